@@ -63,6 +63,22 @@ func main() {
 	switch *prop {
 	case "C06", "C04":
 		scs = c06Scenarios()
+		if *prop == "C06" {
+			// "after Fini() ... ChannelEvents channels are closed, all background goroutines
+			// have exited": the forwarding goroutine at shutdown, also with an event in flight
+			// and a consumer that has stopped receiving (scenarios shared with C05)
+			var params []string
+			for _, k := range []int{0, 2, 3} {
+				for _, kind := range []string{"chanev-fini", "chanev-stalled-fini"} {
+					if kind == "chanev-stalled-fini" && k == 0 {
+						continue
+					}
+					c05table = append(c05table, c05p{kind: kind, k: k, perRead: 1})
+					params = append(params, fmt.Sprint(len(c05table)-1))
+				}
+			}
+			scs = append(scs, scenario{name: "channel-events-at-shutdown", params: params, bound: 1, caseCost: 1, prog: c05prog, check: c05check})
+		}
 	case "C05":
 		scs = c05Scenarios()
 	case "C10":
